@@ -108,9 +108,11 @@ def steady_state_transport_solver(
     if halo is None:
         halo = max(xmx, ymx)
 
-    # pad width
-    px = int(halo / dx)
-    py = int(halo / dy)
+    # pad width in whole cells; the small offset keeps a halo that is a whole
+    # number of cells from losing a cell to floating-point division
+    # (0.3 / 0.1 = 2.9999999999999996)
+    px = int(halo / dx + 1e-9)
+    py = int(halo / dy + 1e-9)
 
     # construct zero-flux halo by padding
     q0 = np.pad(q0, ((py, py), (px, px)), mode="constant", constant_values=0.0)
